@@ -7,6 +7,8 @@ CONSTANTS
   Variants <- VariantsAll
   TK2 <- TK2Thorough
   TK3 <- TK3Thorough
+  ZeroInstr <- ZeroInstrThorough
+  L4 <- L4Thorough
 SPECIFICATION Spec
 INVARIANTS DesignOK EmitCase
 CHECK_DEADLOCK FALSE
